@@ -117,8 +117,8 @@ def hand_formulas(name):
         add("count", COUNT("start", "<stmt>", 2))
         add("count", FA("<stmt>", "s", OR(COUNT("s", "<stmt>", 1), COUNT("s", "<stmt>", 3), lit("s", "a := b ; a := a"))))
         add("count", FA("<stmt>", "s", OR(COUNT("s", "<var>", 1), COUNT("s", "<var>", 2), NOT(SMT(A("<", A("str.len", V("s")), I(7)))))))
-        add("numeric", EXI("n", AND(COUNT("start", "<var>", "n"), COUNT("start", "<assgn>", "n"))))
-        add("numeric", FAI("n", OR(NOT(COUNT("start", "<digit>", "n")), SMT(A("<=", A("str.to.int", V("n")), I(1))))))
+        add("numeric-exists-count", EXI("n", AND(COUNT("start", "<var>", "n"), COUNT("start", "<assgn>", "n"))))
+        add("numeric-forall-count", FAI("n", OR(NOT(COUNT("start", "<digit>", "n")), SMT(A("<=", A("str.to.int", V("n")), I(1))))))
         add("numeric-all-nonneg", FAI("n", SMT(A(">=", A("str.to.int", V("n")), I(0)))))
         add("start-quantified", FA("<start>", "s", EX("<stmt>", "t", SMT(A("=", A("str.len", V("t")), I(6))), inn="s")))
         add("conj-exists-forall", AND(EX("<var>", "k", lit("k", "a")), FA("<digit>", "d", lit("d", "1"))))
@@ -164,8 +164,8 @@ def hand_formulas(name):
         add("to-int", FA("<digit>", "d", EX("<digit>", "e", SMT(A("<=", A("str.to.int", V("d")), A("str.to.int", V("e")))))))
         add("to-int", EX("<digits>", "d", SMT(A("=", A("+", A("str.to.int", V("d")), I(1)), A("*", I(2), I(2))))))
         add("mexpr-optional", EX("<int>", "x", AND(SMT(A("=", V("s"), S("-"))), SMT(A(">", A("str.to.int", V("d")), I(1)))), mexpr=M(MNT("<sign>", "s"), MNT("<digits>", "d"))))
-        add("numeric", EXI("n", EX("<digits>", "d", SMT(A("=", V("d"), V("n"))))))
-        add("numeric", FAI("n", FA("<digits>", "d", OR(NOT(SMT(A("=", A("str.to.int", V("d")), A("str.to.int", V("n"))))), SMT(A("<", A("str.to.int", V("n")), I(20)))))))
+        add("numeric-exists-eq", EXI("n", EX("<digits>", "d", SMT(A("=", V("d"), V("n"))))))
+        add("numeric-forall-eq", FAI("n", FA("<digits>", "d", OR(NOT(SMT(A("=", A("str.to.int", V("d")), A("str.to.int", V("n"))))), SMT(A("<", A("str.to.int", V("n")), I(20)))))))
     if name == "WIDE":
         add("wide", EX("<d>", "x", lit("x", "1")))
         add("wide", FA("<d>", "x", lit("x", "0")))
@@ -174,6 +174,6 @@ def hand_formulas(name):
         add("wide", EX("<row>", "r", EX("<d>", "x", AND(PRED("nth", 30, "x", "r"), lit("x", "1")), inn="r")))
     if name == "CSVISH":
         add("count", FA("<row>", "r", EX("<row>", "q", OR(PRED("same_position", "r", "q"), PRED("inside", "r", "q"), PRED("inside", "q", "r"), TRUE))))
-        add("numeric", EXI("n", FA("<row>", "r", OR(COUNT("r", "<field>", "n"), EX("<row>", "q", AND(PRED("inside", "r", "q"), NOT(PRED("same_position", "r", "q"))))))))
+        add("numeric-exists-count", EXI("n", FA("<row>", "r", OR(COUNT("r", "<field>", "n"), EX("<row>", "q", AND(PRED("inside", "r", "q"), NOT(PRED("same_position", "r", "q"))))))))
         add("count", COUNT("start", "<field>", 2))
     return F
